@@ -67,6 +67,13 @@ def gen_case(ctx, g):
             items.append(('expr', ('fld', 'a', r.randint(0, ngroup - 1))))
         else:
             items.append(('expr', ('lit', r.choice(['c', 7]))))
+    if r.random() < 0.15 and A:
+        # a non-aggregate column over a field that some records lack (None): constant within a group only if ALL its records
+        # agree, None included - in particular None first and a value later is NOT constant
+        extra = max(len(row) for row in A)
+        vals = r.choice([['x'], ['x', 'y']])
+        A = [row + ([r.choice(vals)] if r.random() < 0.6 else []) for row in A]
+        items.insert(r.randint(0, len(items)), ('expr', ('fld', 'a', extra)))
     where = None
     if r.random() < 0.3:
         where = ('ne', ('fld', 'a', 0), ('lit', 'm')) if r.random() < 0.7 else ('lt', ('NR',), ('lit', r.randint(0, 6)))
